@@ -537,7 +537,7 @@ def check_fixedbase(res, facts):
     from rules.c07 import E, show, norm, qeq, A, C
     from rules.c17 import to_q, NotPoly
     from arklib.poly import Q
-    rule = res.rule("R-FIXEDBASE", "BatchMulPreprocessing: table layout and window arithmetic of the builder agree with windowed_mul", 2)
+    rule = res.rule("R-FIXEDBASE", "BatchMulPreprocessing: table layout and window arithmetic of the builder agree with windowed_mul (supplementary clause: no verdict on shapes it does not model)", 0)
     pre = "ark_ec::scalar_mul::BatchMulPreprocessing"
     fns = {f.name: f for f in facts.fns(unit="ws", crate="ark_ec") if f.kind != "Closure" and pre in f.id and f.name in ("with_num_scalars_and_scalar_size", "windowed_mul")}
     b = fns.get("with_num_scalars_and_scalar_size")
@@ -545,19 +545,21 @@ def check_fixedbase(res, facts):
     if b is None:
         rule.bad(key, "anchor missing")
     else:
-        problems = []
+        problems, unrec = [], []
         W = C("compute_window_size", A(2))
         rows = C("div_ceil", A(3), W)
         tabs = [E(b, t["args"][0]) for _, t in b.calls() if t["f"].get("name") == "iter_mut"]
         want_tab = C("from_elem", C("from_elem", 0, ("bin", "Shl", 1, W)), rows)
-        if want_tab not in tabs:
+        if not tabs:
+            unrec.append("table allocation not found")
+        elif want_tab not in tabs:
             problems.append("the table is %s, expected ceil(size/w) rows of 2^w entries with w = compute_window_size(num_scalars)" % [show(t)[:100] for t in tabs])
         # doubling loop between rows
         loops = DF.sccs(b)
         dbl = [(bb, t) for bb, t in b.calls() if t["f"].get("name") == "double_in_place"]
         push = [(bb, t) for bb, t in b.calls() if t["f"].get("name") == "push"]
         if len(dbl) != 1 or len(push) != 1:
-            problems.append("expected one push of the row base and one doubling loop")
+            unrec.append("expected one push of the row base and one doubling loop")
         else:
             dbb, pbb = dbl[0][0], push[0][0]
             outer_scc = min((scc for scc in loops if dbb in scc), key=len, default=None)
@@ -585,7 +587,9 @@ def check_fixedbase(res, facts):
                     if isinstance(r, tuple) and r[:2] == ("agg", "Range") and r[2][0] == 0:
                         trip = r[2][1]
             outer = [scc for scc in loops if pbb in scc]
-            if trip != W:
+            if trip is None:
+                unrec.append("trip count of the doubling loop not found")
+            elif trip != W:
                 problems.append("the row base is doubled %s times between rows, not w = %s times" % (show(trip), show(W)))
             if not outer or pbb in (inner or ()) or not b.dominates(pbb, dbb):
                 problems.append("the row base is not pushed before it is doubled in each round")
@@ -595,7 +599,7 @@ def check_fixedbase(res, facts):
         fe = [t for _, t in b.calls() if t["f"].get("name") == "for_each"]
         clo = facts.get(closure_args(b, fe[0])[0], b.unit) if fe and closure_args(b, fe[0]) else None
         if clo is None:
-            problems.append("row-fill closure not found")
+            unrec.append("row-fill closure not found")
         else:
             env = E(b, fe[0]["args"][1])
             last = ("bin", "Shl", 1, ("bin", "Sub", A(3), ("bin", "Mul", ("bin", "Sub", rows, 1), W)))
@@ -609,7 +613,9 @@ def check_fixedbase(res, facts):
                         has_last = has_last or qeq(to_q(c_[3], lambda t_: lnames.get(t_)), want_e)
                     except NotPoly:
                         pass
-            if not has_last:
+            if not caps:
+                unrec.append("captures of the row-fill closure not found")
+            elif not has_last:
                 problems.append("the last row is not limited to 2^(size - (rows-1) w) entries (captures %s)" % [show(c_)[:60] for c_ in caps])
             stores = []
             for bi, si, st_ in clo.stmts():
@@ -620,7 +626,7 @@ def check_fixedbase(res, facts):
             adds = [(bb, t) for bb, t in clo.calls() if t["f"].get("name") == "add_assign"]
             zeros = [bb for bb, t in clo.calls() if t["f"].get("name") == "zero"]
             if len(stores) != 1 or len(adds) != 1 or not zeros:
-                problems.append("row fill is not `entry = running sum; running sum += row base` from zero()")
+                unrec.append("row fill is not of the modelled shape `entry = running sum; running sum += row base`")
             else:
                 sbb, abb = stores[0][0], adds[0][0]
                 acc = root_key(clo, adds[0][1]["args"][0])
@@ -637,15 +643,22 @@ def check_fixedbase(res, facts):
             r = st_.get("r")
             if r and r["k"] == "agg" and (r.get("adt") or "").endswith("BatchMulPreprocessing"):
                 outs.append(dict(zip(r.get("fields") or [], [E(b, o) for o in r["ops"]])))
-        if len(outs) != 1 or outs[0].get("window") != W or outs[0].get("max_scalar_size") != A(3):
+        if len(outs) != 1:
+            unrec.append("result aggregate not found")
+        elif outs[0].get("window") != W or outs[0].get("max_scalar_size") != A(3):
             problems.append("the stored window / max_scalar_size are %s, not (w, size)" % [(show(o.get("window")), show(o.get("max_scalar_size"))) for o in outs])
-        (rule.bad if problems else rule.ok)(key, "; ".join(problems) if problems else "ceil(size/w) rows of 2^w entries; base doubled w times between rows; entry j = j * row base; last row 2^(size-(rows-1)w) entries", b.loc)
+        if problems:
+            rule.bad(key, "; ".join(problems), b.loc)
+        elif unrec:
+            rule.noverdict(key, "shape not modelled (%s)" % "; ".join(unrec), b.loc)
+        else:
+            rule.ok(key, "ceil(size/w) rows of 2^w entries; base doubled w times between rows; entry j = j * row base; last row 2^(size-(rows-1)w) entries", b.loc)
     m = fns.get("windowed_mul")
     key = "ark_ec|BatchMulPreprocessing::windowed_mul"
     if m is None:
         rule.bad(key, "anchor missing")
     else:
-        problems = []
+        problems, unrec = [], []
         w, size = A(1, "window"), A(1, "max_scalar_size")
         o_it = ("iter", 0, C("div_ceil", size, w))
         i_it = ("iter", 0, w)
@@ -666,10 +679,12 @@ def check_fixedbase(res, facts):
         bits_src = C("to_bits_le", C("into_bigint", A(2)))
         bit_reads = [L(h, t["args"][1]) for h in hosts for _, t in h.calls() if t["f"].get("name") == "index" and len(t["args"]) == 2 and L(h, t["args"][0]) == bits_src]
         try:
-            if len(bit_reads) != 1 or not qeq(to_q(bit_reads[0], leaf), want_bit):
+            if len(bit_reads) != 1:
+                unrec.append("the read of the scalar bit not found")
+            elif not qeq(to_q(bit_reads[0], leaf), want_bit):
                 problems.append("the scalar bit read for column bit i of row o is %s, expected bit o*w + i" % [show(x)[:80] for x in bit_reads])
         except NotPoly as e:
-            problems.append("bit index is not an index polynomial of (row, bit, window): %s" % e)
+            unrec.append("bit index is not an index polynomial of (row, bit, window): %s" % e)
         guards = [L(h, bl["t"]["o"]) for h in hosts for bl in h.bbs if bl["t"]["k"] == "switch"]
         # a closure may return the conjunction directly: comparisons feeding the return value count as guards too
         for h in hosts[1:]:
@@ -684,7 +699,7 @@ def check_fixedbase(res, facts):
                     okg = okg or qeq(to_q(g[2], leaf), want_bit)
                 except NotPoly:
                     pass
-        if not okg:
+        if not okg and not unrec:
             problems.append("the bit read is not guarded by o*w + i < MODULUS_BIT_SIZE")
         ors = []
         for h in hosts:
@@ -695,11 +710,13 @@ def check_fixedbase(res, facts):
 
         def is_shift_i(x):
             return isinstance(x, tuple) and x[:3] == ("bin", "Shl", 1) and (x[3] == i_it or (isinstance(x[3], tuple) and x[3] and x[3][0] == "cparam"))
-        if not any(is_shift_i(a_) or is_shift_i(b_) for a_, b_ in ors):
+        if not ors:
+            unrec.append("assembly of the column index not found")
+        elif not any(is_shift_i(a_) or is_shift_i(b_) for a_, b_ in ors):
             problems.append("column index is not assembled as inner |= 1 << i (found %s)" % [(show(a_)[:40], show(b_)[:40]) for a_, b_ in ors])
         accs = [t for _, t in m.calls() if t["f"].get("name") == "add_assign"]
         if len(accs) != 1:
-            problems.append("expected one accumulation per row")
+            unrec.append("accumulation per row not found")
         else:
             val = E(m, accs[0]["args"][1])
             okv = isinstance(val, tuple) and val[:2] == ("call", "index") and val[2][0] == C("index", A(1, "table"), o_it)
@@ -708,7 +725,12 @@ def check_fixedbase(res, facts):
             init = E(m, accs[0]["args"][0])
             if init != C("index", C("index", A(1, "table"), 0), 0):
                 problems.append("the accumulator starts at %s, expected the zero entry table[0][0]" % show(init)[:80])
-        (rule.bad if problems else rule.ok)(key, "; ".join(problems) if problems else "rows 0..ceil(size/w); column = sum of bit(o*w+i) << i for i < w (bits below the modulus size); res = table[0][0] + sum table[o][column]", m.loc)
+        if problems:
+            rule.bad(key, "; ".join(problems), m.loc)
+        elif unrec:
+            rule.noverdict(key, "shape not modelled (%s)" % "; ".join(unrec), m.loc)
+        else:
+            rule.ok(key, "rows 0..ceil(size/w); column = sum of bit(o*w+i) << i for i < w (bits below the modulus size); res = table[0][0] + sum table[o][column]", m.loc)
 
 
 def run(ctx, res):
